@@ -34,7 +34,7 @@ pub fn prop() -> Prop {
         rule: "two interfaces on Medium::Ieee802154 (extended/short hardware addresses, PAN id set or unset) with a link-local and a global address each (IID derived from the hardware address, 0000:00ff:fe00:XXXX form, arbitrary) exchange UDP (ports from the 4-bit, 8-bit and uncompressible classes, payload 0..4200 octets, source pinned or selected), ICMPv6 echo (request from an icmp socket, automatic reply) and TCP (PRF streams of 0..6 KiB both ways, close) to unicast / ff02::1 / solicited-node / other multicast destinations with hop limit 1/64/255/other, 1-3 (rarely up to 6) datagrams back to back in 1-2 bursts, with and without transmit back-pressure (poll with a transmit budget of 0..3 frames); frames are delivered in drawn orders with drawn duplications, chunking and time gaps (all permutations x single duplications for <= 4 fragments in the exhaustive phase); oracles: independent decoder reconstructs exactly the datagram that was sent (checksums valid, <=127 octets per frame, FRAG offsets/sizes/tags consistent), receiver sockets deliver exactly what a reference reassembler model says must complete (never twice, never anything else), same deliveries as the raw-IP twin; independent IPHC encoder feeds the receiver in every legal stateless/stateful mode; adversarial FRAG1/FRAGN/IPHC/NHC frames must not panic; non-trivial = a datagram delivered whose (protocol, source class, destination class, port class, hop-limit class, fragment-count bucket) tuple is fed to the digest together with its sizes",
         assumptions: vec![
             "independent 802.15.4 / RFC 4944 / RFC 6282 codec in vcheck/src/c20_lowpan.rs and IPv6/UDP/ICMPv6/TCP codec in vkit::indep",
-            "frames handed to the device carry no FCS: 'fits an 802.15.4 frame' is asserted as <= 127 octets (frames > 125 octets are only counted)",
+            "frames handed to the device carry no FCS: 'fits an 802.15.4 frame' is asserted as <= 125 octets (aMaxPHYPacketSize 127 minus the 2-octet FCS)",
             "reference reassembler: REASSEMBLY_BUFFER_COUNT datagrams in progress, ASSEMBLER_MAX_SEGMENT_COUNT disjoint ranges per datagram, the timeout the interface reports (reassembly_timeout(), 60 s by default) from the first fragment seen; a datagram must be delivered iff this model completes it",
             "the channel never duplicates every fragment of a datagram nor an unfragmented frame, so 'at most once' is well defined",
             "datagrams longer than 2047 octets cannot be expressed in RFC 4944 fragment headers: nothing may be delivered and nothing undecodable may be emitted for them",
